@@ -16,10 +16,11 @@ def _nontrivial(recs):
 PROP = dict(
     specdir="tracker", engine="c27",
     mc=[dict(module="PeerStore", cfg="MC_PeerStore.cfg"),
+        dict(module="PeerStoreImpl", cfg="MC_PeerStoreImpl.cfg"),
         dict(module="PeerStore", cfg="MC_PeerStore_2h.cfg", tiers=("thorough",)),
         dict(module="PeerStore", cfg="MC_PeerStore_3p.cfg", tiers=("thorough",))],
     trace=dict(module="PeerStoreTrace", cfg="PeerStoreTrace.cfg"),
-    chunk_lines=2500,
+    chunk_lines=2500, max_rejections=10,
     nontrivial=_nontrivial,
     min_nontrivial=20,
     rule="seeded histories on a real peerstore.LocalStore with a mock clock: (seq) 30-70 UpdatePeer/GetPeers/clock/"
